@@ -298,7 +298,12 @@ pub enum AdapterObj {
     F(Pin<Box<dyn Future<Output = u32> + Send>>),
     St(Pin<Box<dyn Stream<Item = u32> + Send>>),
     Si(Pin<Box<dyn Sink<u32, Error = u32> + Send>>),
+    Du(Pin<Box<dyn Duplex + Send>>),
 }
+
+/// one object used through both of its halves
+pub trait Duplex: Stream<Item = u32> + Sink<u32, Error = u32> {}
+impl<T: Stream<Item = u32> + Sink<u32, Error = u32>> Duplex for T {}
 
 enum RFrame {
     Guard(LocalParentGuard),
@@ -593,8 +598,18 @@ pub fn exec_op(ctx: &mut WorkerCtx, op: &Op) {
             }
         }),
         Op::AddEvent { span, e, np, k0 } => {
-            let ev = mk_event(*e, *np, *k0);
-            with_span(*span, |s| s.add_event(ev));
+            if *e % 3 == 2 {
+                // the older entry point for the same thing
+                #[allow(deprecated)]
+                with_span(*span, |s| {
+                    Event::add_to_parent(ename(*e), s, || {
+                        (*k0..*k0 + *np as u32).map(|k| (std::borrow::Cow::from(key(k)), std::borrow::Cow::from(val(k)))).collect::<Vec<_>>()
+                    })
+                });
+            } else {
+                let ev = mk_event(*e, *np, *k0);
+                with_span(*span, |s| s.add_event(ev));
+            }
         }
         Op::LAddProps { n, k0 } => {
             if *n == 1 {
@@ -606,7 +621,16 @@ pub fn exec_op(ctx: &mut WorkerCtx, op: &Op) {
                 LocalSpan::add_properties(|| props_vec(*k0, *n))
             }
         }
-        Op::LAddEvent { e, np, k0 } => LocalSpan::add_event(mk_event(*e, *np, *k0)),
+        Op::LAddEvent { e, np, k0 } => {
+            if *e % 3 == 2 {
+                #[allow(deprecated)]
+                Event::add_to_local_parent(ename(*e), || {
+                    (*k0..*k0 + *np as u32).map(|k| (std::borrow::Cow::from(key(k)), std::borrow::Cow::from(val(k)))).collect::<Vec<_>>()
+                })
+            } else {
+                LocalSpan::add_event(mk_event(*e, *np, *k0))
+            }
+        }
         Op::LWithProps { n, k0 } => {
             if let Some(RFrame::Local(slot)) = ctx.frames.last_mut() {
                 if let Some(s) = slot.take() {
@@ -689,6 +713,10 @@ pub fn exec_op(ctx: &mut WorkerCtx, op: &Op) {
                     Some(s) => AdapterObj::Si(Box::pin(fastrace_futures::SinkExt::<u32>::in_span(Inner, s))),
                     None => AdapterObj::Si(Box::pin(Inner)),
                 },
+                AKind::Duplex => match sp {
+                    Some(s) => AdapterObj::Du(Box::pin(fastrace_futures::StreamExt::in_span(Inner, s))),
+                    None => AdapterObj::Du(Box::pin(Inner)),
+                },
             };
             lock(&ADAPTERS).as_mut().unwrap().insert(*a, obj);
         }
@@ -715,6 +743,24 @@ pub fn exec_op(ctx: &mut WorkerCtx, op: &Op) {
                     Poll::Ready(None) => AOutcome::End,
                     Poll::Ready(Some(_)) => AOutcome::Value,
                 },
+                (AdapterObj::Du(s), AMethod::PollNext) => match Stream::poll_next(s.as_mut(), &mut cx) {
+                    Poll::Pending => AOutcome::Pending,
+                    Poll::Ready(None) => AOutcome::End,
+                    Poll::Ready(Some(_)) => AOutcome::Value,
+                },
+                (AdapterObj::Du(s), m) => {
+                    let r = match m {
+                        AMethod::PollReady => Sink::poll_ready(s.as_mut(), &mut cx),
+                        AMethod::StartSend => Poll::Ready(Sink::start_send(s.as_mut(), 1)),
+                        AMethod::PollFlush => Sink::poll_flush(s.as_mut(), &mut cx),
+                        _ => Sink::poll_close(s.as_mut(), &mut cx),
+                    };
+                    match r {
+                        Poll::Pending => AOutcome::Pending,
+                        Poll::Ready(Ok(())) => AOutcome::Value,
+                        Poll::Ready(Err(_)) => AOutcome::Error,
+                    }
+                }
                 (AdapterObj::Si(s), m) => {
                     let r = match m {
                         AMethod::PollReady => s.as_mut().poll_ready(&mut cx),
